@@ -97,6 +97,17 @@ def history(inp):
         o()
     elif op == "data":
         o.data = _data(dict(inp, seed=int(inp.get("seed", 3)) + 11), datatype, key="data_new", n=N + 3)
+    elif op == "data:dtype":
+        # the same samples with the other dtype (a real array declared complex / a complex array with zero imaginary part made real)
+        if datatype == "real":
+            newd = np.asarray(o.data).astype(complex)
+        else:
+            o.data = np.real(np.asarray(data)) + 0j            # start from complex samples whose imaginary part is zero
+            if case.startswith("valid"):
+                o()
+            newd = np.real(np.asarray(o.data)).copy()
+        o.data = newd
+        assigned = (newd, "complex" if datatype == "real" else "real")
     elif op == "data_y":
         o.data_y = np.real(_data(dict(inp, seed=5), "real", key="datay_new", n=N))
     elif op == "sampling":
@@ -134,9 +145,15 @@ def history(inp):
     x = np.array(o.psd, dtype=float)
     final = attrs_of(o, cls, at)
     sides = o.sides
-    f = build(cls, datatype, final)
+    fdt = datatype
+    if op == "data:dtype":
+        # the reference object is built from the value that was ASSIGNED, not from what the object chose to keep
+        final = dict(final, data=assigned[0])
+        fdt = assigned[1]
+    f = build(cls, fdt, final)
     f()
-    f.sides = sides
+    if op != "data:dtype":
+        f.sides = sides
     y = np.array(f.psd, dtype=float)
     nf = len(o.frequencies())
     okdf = abs(o.df - o.sampling / o.NFFT) <= 1e-12 * max(1.0, abs(o.df))
